@@ -233,4 +233,55 @@ def _element_count_follows_kind(run, P):
             stx = stx.orelse[0] if len(stx.orelse) == 1 and isinstance(stx.orelse[0], ast.If) else None
         if seen != set(KIND):
             run.incomplete("F-TABLE/element-count", c0, NEI, f"kind branches found: {sorted(seen)}")
+        # selector and selected object move together: an attribute that _current_tree() hands out unconditionally (return self._tree) is a cached pointer to "the tree of
+        # the selected kind"; every non-raising path of the setter that records the new kind (assigns self._coordinates) must also assign that pointer, otherwise a
+        # re-selected, already built kind leaves it pointing at the previously selected tree.
+        cur = ci.methods.get("_current_tree")
+        cp = f"{cls}.coordinates.setter:current-tree-follows-kind"
+        if cur is None:
+            run.incomplete("F-TABLE/element-count", cp, NEI, "_current_tree not found")
+        else:
+            rets = [r for r in ast.walk(cur.node) if isinstance(r, ast.Return) and r.value is not None]
+            ptrs = set()
+            sites = []       # statements that pick the attribute handed out (the return itself, or the assignment of the returned local)
+            for r in rets:
+                if isinstance(r.value, ast.Attribute) and isinstance(r.value.value, ast.Name) and r.value.value.id == "self":
+                    ptrs.add(r.value.attr)
+                    sites.append(r)
+                elif isinstance(r.value, ast.Name):
+                    for a_ in ast.walk(cur.node):
+                        if isinstance(a_, ast.Assign) and any(isinstance(t, ast.Name) and t.id == r.value.id for t in a_.targets) \
+                                and isinstance(a_.value, ast.Attribute) and isinstance(a_.value.value, ast.Name) and a_.value.value.id == "self":
+                            ptrs.add(a_.value.attr)
+                            sites.append(a_)
+            guarded = bool(sites) and all(_under_kind_test(cur.node, x) for x in sites)
+            if not ptrs:
+                run.incomplete("F-TABLE/element-count", cp, NEI, "_current_tree does not return an attribute of self")
+            elif guarded and len(ptrs) > 1:
+                run.holds("F-TABLE/element-count", cp, f"{NEI}:{cur.node.lineno}", f"_current_tree chooses among {sorted(ptrs)} by the selected kind at every call (no cached pointer)", nontrivial=False)
+            else:
+                spaths = [p for p in enumerate_paths(setter.body) if p.exit != "raise"]
+                bad = []
+                for p in spaths:
+                    assigned = {t.attr for e in p.events if isinstance(e, ast.Assign) for t in e.targets if isinstance(t, ast.Attribute) and isinstance(t.value, ast.Name) and t.value.id == "self"}
+                    if "_coordinates" in assigned and not (ptrs <= assigned):
+                        bad.append((p, sorted(ptrs - assigned)))
+                if bad:
+                    conds = [f"{norm(t)[:40]} is {v}" for t, v in bad[0][0].conds][:3]
+                    run.violation("F-TABLE/element-count", cp, f"{NEI}:{setter.lineno}", f"_current_tree() returns self.{bad[0][1][0]}, but {len(bad)} of {len(spaths)} path(s) of the coordinates setter record the new kind without "
+                                  f"assigning it (when {conds}): after nodes -> face centers -> nodes the wrapper reports 'nodes' and answers from the face-centre tree")
+                elif spaths:
+                    run.holds("F-TABLE/element-count", cp, f"{NEI}:{setter.lineno}", f"every path of the setter that records the kind also assigns {sorted(ptrs)}")
+                else:
+                    run.incomplete("F-TABLE/element-count", cp, NEI, "no returning path in the setter")
+
+
+def _under_kind_test(fnode, ret):
+    """the return statement sits under an if that tests self._coordinates"""
+    import ast
+    from ..astutil import norm
+    for n in ast.walk(fnode):
+        if isinstance(n, ast.If) and "_coordinates" in norm(n.test) and any(x is ret for b in (n.body, n.orelse) for s_ in b for x in ast.walk(s_)):
+            return True
+    return False
 
